@@ -308,7 +308,7 @@ def run(chk):
                     "full-space oracle coq/theories/EDSpec.v at binary64 (Jordan-Wigner matrices, rotation, Tr rho O)",
                     "Eigen's self-adjoint solver: certified per run (CERT: max|HU-UE|, max|U^+U-1|), which are the eigen_equation / eigenvectors_normalised hypotheses of avg_energy_is_trace"]
     chk.assume += ["floating-point rounding is outside the theorems (exact reals); comparisons use 1e-12 relative (model), 1e-9 (full-space oracle), and for offset invariance 1e-9 + 32 beta |offset| 2^-52 (rounding of eigenvalues of size |offset|)",
-                   "trace theorems are proved for real eigenvectors (default build); the complex build (complex hopping, genuinely complex eigenvectors) is covered by the correspondence runs only",
+                   "trace theorems are proved over R (default build) and over C (complex build, ..._complex); the weight theorems are over R (RealType in both builds)",
                    "operator data of EnsembleAverage (QuadraticOperator parts) are inputs of the model; their correctness is C10/C07 (hypotheses rotated, bimap_complete)"]
     edlib.binaries("real")
     edlib.binaries("complex")
